@@ -726,7 +726,72 @@ def _which(v, v2, u, stock):
     return "other"
 
 
+# ---- parsing history ----------------------------------------------------------
+H_JOINERS = [" ", "", "\t"]
+
+
+def _hist_warmups(x, j, kind):
+    s = H_JOINERS[j - 1].join(x)
+    if kind == "joiners":
+        out = [jj.join(x) for jj in H_JOINERS + ["  "]]
+    elif kind == "case":
+        out = [s.lower(), s.upper(), s.swapcase(), s.title()]
+    else:
+        out = [s.strip(), " " + s, s + " ", "(" + s + ")", s.rstrip("*/( \t"), s.lstrip("*/) \t")]
+    seen = []
+    for w in out:
+        if w != s and w not in seen:
+            seen.append(w)
+    return s, seen
+
+
+def _hist_forms(s, reg):
+    """the three call forms that hand the string to the registry's parser; projection of the unit obtained."""
+    unyt = _U["unyt"]
+    out = []
+    first = None
+    for form in ("unit", "quantity", "to"):
+        try:
+            if form == "unit":
+                u = _U["Unit"](s, registry=reg)
+                first = u
+            elif form == "quantity":
+                u = unyt.unyt_quantity(1.0, s, registry=reg).units
+            else:
+                u = unyt.unyt_quantity(3.0, "s", registry=reg).to(s).units
+            out.append({"o": "Ok", "dim": _dimvec(u.dimensions), "off": repr(float(u.base_offset)), "bv": float(u.base_value)})
+        except _U["UPE"]:
+            out.append({"o": "UnitParseError", "dim": [], "off": "", "bv": 0.0})
+        except Exception as e:  # noqa: BLE001 - the class is the observation
+            out.append({"o": type(e).__name__, "dim": [], "off": "", "bv": 0.0})
+    return out, first
+
+
+def _observe_hist(case):
+    s, warmups = _hist_warmups(case["x"], case["j"], case["w"])
+    cold_reg = _U["UnitRegistry"]()
+    cold, first = _hist_forms(s, cold_reg)
+    memo = True
+    if first is not None:
+        try:
+            memo = _U["Unit"](s, registry=cold_reg) is first
+        except Exception:  # noqa: BLE001
+            memo = False
+    warm_reg = _U["UnitRegistry"]()
+    for w in warmups:
+        _construct(w, warm_reg)
+    warm, _f = _hist_forms(s, warm_reg)
+    for c, w in zip(cold, warm):
+        w["sc"] = bool(c["o"] == "Ok" and w["o"] == "Ok" and _same_scale(c["bv"], w["bv"], 1e-12))
+        c["sc"] = True
+    for r in cold + warm:
+        r["bv"] = repr(r["bv"])
+    return {"k": "hist", "t": case["t"], "j": case["j"], "w": case["w"], "s": ascii(s), "warmups": [ascii(w) for w in warmups], "cold": cold, "warm": warm, "memo": bool(memo)}
+
+
 def _inner(case):
+    if case["k"] == "hist":
+        return _observe_hist(case)
     if case["k"] == "ast":
         return _observe_ast(case)
     if case["k"] == "py":
@@ -829,6 +894,9 @@ def _hang(case):
     if case["k"] == "persist":
         return {"k": "persist", "rk": case["rk"], "f": case["f"], "ca": case["ca"], "rt": case["rt"], "w": {"dim": [], "off": "", "text": ""},
                 "r": {"o": "Hang", "dim": [], "off": "", "sc": "", "text": ""}, "exc": "Hang"}
+    if case["k"] == "hist":
+        z = [{"o": "Hang", "dim": [], "off": "", "bv": "0.0", "sc": False} for _ in range(3)]
+        return {"k": "hist", "t": case["t"], "j": case["j"], "w": case["w"], "s": "", "warmups": [], "cold": z, "warm": z, "memo": True}
     if case["k"] == "py":
         return {"k": "py", "h": case["h"], "tr": case["tr"], "w": case["w"], "warm": case["warm"], "iswarm": False, "o": "Hang", "ev": []}
     out = {"k": case["k"], "o": "Hang", "ev": []}
